@@ -118,7 +118,7 @@ def server_key_share(server_hello_record):
     raise ValueError('no key_share in the ServerHello')
 
 
-def read_record(sock, timeout=10.0):
+def read_record(sock, timeout=90.0):
     sock.settimeout(timeout)
     hdr = b''
     while len(hdr) < 5:
@@ -333,9 +333,9 @@ class Server(object):
 
     def read_client_finished(self):
         """True when the client answered with a Finished that verifies (it completed on its side)."""
-        rec = read_record(self.sock, timeout=5.0)
+        rec = read_record(self.sock, timeout=30.0)
         while rec is not None and rec[0] == 20:
-            rec = read_record(self.sock, timeout=5.0)
+            rec = read_record(self.sock, timeout=30.0)
         if rec is None or rec[0] != 23:
             return False
         got = RT.tls13_unprotect(self.ck, self.civ, self.cseq.to_bytes(8, 'big'), rec)
